@@ -389,7 +389,9 @@ class PRODEngine(Engine):
             self.evseq += 1
             s.cancelled_at = self.evseq
             # "before dispatch" is certain only when a dispatch would have been a synchronous write (warm)
-            s.cancel_before_dispatch = not s.appearances and s.batch is None and self._warm(s.topic)
+            # - for every topic with a send still pending: a batch is taken off the queue as a whole, and one cold topic in it (leader
+            # down, metadata being reloaded) keeps the whole batch from being written although it has been dispatched
+            s.cancel_before_dispatch = not s.appearances and s.batch is None and all(self._warm(t) for t in set(x.topic for x in pend))
             self.labels.add("cancel-queued" if s.cancel_before_dispatch else "cancel-after-dispatch")
             s.watch.d.cancel()
             self._after_event()
